@@ -333,6 +333,18 @@ followed by `np.array(graph.get_adjacency(type=2).data)` -/
 def simplified (es : List (Nat × Nat)) : Adj := fun a b =>
   a != b && es.any fun e => (e.1 == a && e.2 == b) || (e.2 == a && e.1 == b)
 
+/-- the argument dispatch of `Network.ErdosRenyi` (`network.py`), executed from the *generated*
+tests and branches (`erTest1/2`, `erBranch1/2`: `translate/gen_C17.py` regenerates them from the source on
+every run): `if link_probability is not None and n_links is None` → `Erdos_Renyi(n, p=…)`; `elif
+link_probability is None and n_links is not None` → `Erdos_Renyi(n, m=n_links)`; `else` `ValueError`
+(`none`).  The returned matrix is `np.array(graph.get_adjacency(type=2).data)` (`erReturn`) =
+`fromEdges n_nodes (graph.get_edgelist())` for the simple graph igraph returns; `Network.WattsStrogatz`
+is the same read-out of `Watts_Strogatz(dim=1, size=N, nei=k, p=p)` (`wsCall`, `wsReturn`). -/
+def erdosRenyiCall (hasProbability hasLinkCount : Bool) : Option ERCall :=
+  if erTest1 hasProbability hasLinkCount then some erBranch1
+  else if erTest2 hasProbability hasLinkCount then some erBranch2
+  else none
+
 /-- is there a pair of listed cross links the `while True` of `_randomlyRewireCrossLinks` accepts?
 (`false` = the kernel would draw forever: the call is outside "defined") -/
 def crossAdmissible (C : Adj) (links : List (Nat × Nat)) : Bool :=
@@ -378,10 +390,30 @@ def rndP (p : Nat) (n : Int) : Int :=
 /-- binary32 (`FIELD_t`, C `float`) -/
 def rnd32 : Int → Int := rndP 24
 
-/-- binary64 rounding of a rational that is a multiple of `2^-1074` (every product of a double
-with an integer is) -/
+/-- the exponent of the grid around a magnitude with integer part `f` (unit = smallest subnormal):
+`0` in the subnormal / exact range, otherwise `⌊log2 f⌋ + 1 - p` -/
+def gridShift (p f : Nat) : Nat := if f < 2 ^ p then 0 else Nat.log2 f + 1 - p
+
+/-- IEEE-754 round to nearest, ties to even, of **any** non-negative rational `a` (in units of the
+smallest subnormal) to `p` significant bits: `lo ≤ a < hi` are the two neighbouring grid points
+(round 5; `rndP` is its restriction to integers: `rndP_eq_rndQ`) -/
+def rndQ (p : Nat) (a : Rat) : Nat :=
+  let f := a.floor.toNat
+  let s := gridShift p f
+  let q := f / 2 ^ s
+  let lo := q * 2 ^ s
+  let hi := (q + 1) * 2 ^ s
+  if a - (lo : Rat) < (hi : Rat) - a then lo
+  else if (hi : Rat) - a < a - (lo : Rat) then hi
+  else if q % 2 = 0 then lo else hi
+
+/-- binary64 rounding (nearest, ties to even) of an arbitrary rational — the multiplication
+`rd.random() * E` as numpy evaluates it.  Round 5: total and *proved* to be a `B64.Nearest`
+rounding (`rnd64_nearest`, Lemmas/RandomJ), so the range theorem holds for what the driver executes
+without any hypothesis on the rounding.  Overflow is not modelled (the products are below `2^31`). -/
 def rnd64 (x : Rat) : Rat :=
-  ((rndP 53 (x * ((2 ^ 1074 : Nat) : Rat)).floor : Int) : Rat) / ((2 ^ 1074 : Nat) : Rat)
+  if x < 0 then -((rndQ 53 (-x * ((2 ^ 1074 : Nat) : Rat)) : Nat) : Rat) / ((2 ^ 1074 : Nat) : Rat)
+  else ((rndQ 53 (x * ((2 ^ 1074 : Nat) : Rat)) : Nat) : Rat) / ((2 ^ 1074 : Nat) : Rat)
 
 /-- the function the pointer `cond_len` refers to, evaluated with rounding `rnd` -/
 def condLenFl (rnd : Int → Int) (c : GeoCfg) (s t k l : Nat) : Bool :=
